@@ -143,6 +143,9 @@ func (o *fops[F]) Create(fid *go9p.FFid, name string, perm uint32) (*F, error) {
 		return nil, err
 	}
 	n := h.createNode
+	if h.added[n] {
+		return nil, &go9p.Error{Err: "harness: node already in use (history has left the specification)", Errornum: 5}
+	}
 	f := cast(proto, h.nodes[n])
 	dir := fid.F
 	var grp go9p.Group
@@ -152,7 +155,7 @@ func (o *fops[F]) Create(fid *go9p.FFid, name string, perm uint32) (*F, error) {
 	if err := f.Add(dir, name, fid.Fid.User, grp, perm, h.opsFor(n)); err != nil {
 		return nil, err
 	}
-	h.isdir[n] = isdir == 1
+	h.isdir[n], h.added[n] = isdir == 1, true
 	h.byPath[f.Path] = n
 	var r any = f
 	return r.(*F), nil
@@ -314,6 +317,7 @@ type H struct {
 	byPtr  map[uintptr]int
 	byPath map[uint64]int
 	isdir  []bool
+	added  []bool // Add succeeded for this node (the API is only used on such nodes)
 	users  map[int]*usr
 	groups map[int]*grp
 	srv    *go9p.Fsrv
@@ -413,6 +417,7 @@ func NewH(cfg Cfg) (*H, error) {
 		doff: map[int]uint64{}, out: "ok", attachAs: 1}
 	h.nodes = make([]any, cfg.NNodes+1)
 	h.isdir = make([]bool, cfg.NNodes+1)
+	h.added = make([]bool, cfg.NNodes+1)
 	for i := 1; i <= cfg.NNodes; i++ {
 		f := newFile(proto)
 		h.nodes[i] = f
@@ -422,7 +427,7 @@ func NewH(cfg Cfg) (*H, error) {
 	if err := root.Add(nil, "/", h.user(1), h.group(1), go9p.DMDIR|0o777, h.opsFor(1)); err != nil {
 		return nil, err
 	}
-	h.isdir[1] = true
+	h.isdir[1], h.added[1] = true, true
 	h.byPath[root.Path] = 1
 	h.srv = go9p.NewsrvFileSrv(root)
 	h.srv.Dotu = cfg.Dotu
@@ -554,6 +559,8 @@ func (h *H) statTuple(st *wire.Stat) []any {
 	return []any{id, st.Name, int(st.Mode & 0o777), uid, gid, dirbit}
 }
 
+var ErrDrift = fmt.Errorf("the history has left the specification")
+
 // Exec performs one action and returns the observation in the vocabulary of Fsrv.tla.
 func (h *H) Exec(a []any) (map[string]any, error) {
 	o := emptyObs()
@@ -564,6 +571,18 @@ func (h *H) Exec(a []any) (map[string]any, error) {
 	errReply := func(err error) {
 		if err != nil {
 			o["reply"] = "err"
+		}
+	}
+	// the API is only used the way the specification uses it; if an earlier step diverged from the
+	// specification (TLC reports that step) the rest of the history is meaningless
+	switch op {
+	case "add":
+		if h.added[toInt(a[1])] || !h.added[toInt(a[2])] {
+			return nil, ErrDrift
+		}
+	case "rm", "rename", "find", "chmod", "checkperm":
+		if !h.added[toInt(a[1])] {
+			return nil, ErrDrift
 		}
 	}
 	switch op {
@@ -581,7 +600,7 @@ func (h *H) Exec(a []any) (map[string]any, error) {
 		err := f.Add(dir, a[3].(string), h.user(toInt(a[6])), h.group(toInt(a[7])), mode, ops)
 		errReply(err)
 		if err == nil {
-			h.isdir[n] = toBool(a[4])
+			h.isdir[n], h.added[n] = toBool(a[4]), true
 			h.byPath[f.Path] = n
 		}
 		return o, nil
